@@ -10,18 +10,37 @@ Open Scope Z_scope.
 
 Definition Inv (s : st) : Prop :=
   NoDup (numbers_of s) /\
-  (forall n o, In (n, o) (cache s) -> In o (objs s)) /\
-  (clink s = true -> forall o, In o (objs s) -> olink s o = true).
+  (forall n o, In (n, o) (cache s) -> In o (objs s)).
 
-(* premise on one operation: a free-standing collection (clink = false) cannot see a member being
-   renumbered, so renumbering a member of a free-standing collection onto a number in use is excluded *)
+(* every member of a problem's collection is linked to that problem *)
+Definition Linked (s : st) : Prop :=
+  clink s = true -> forall o, In o (objs s) -> olink s o = LThis.
+
+(* premises on one operation:
+   SetNum: the number setter of a member validates against the collection of the problem the
+     member is linked to.  A member that is not linked to this collection's problem (free-standing
+     collection; member taken over by another problem) can be renumbered onto a number in use
+     without this collection seeing it: excluded.
+   Remove: list.remove takes out the first member that EQUALS the argument, the cache eviction works
+     on the argument itself: remove(x) with x equal to, but not identical with, a member leaves
+     the member's other cache entries behind (refuted below): excluded. *)
 Definition op_ok (s : st) (o : op) : Prop :=
   match o with
-  | SetNum x n => clink s = true \/ ~ In x (objs s) \/ ~ In n (numbers_of s)
+  | SetNum x n => olink s x = LThis \/ ~ In x (objs s) \/ ~ In n (numbers_of s)
+  | Remove x => find_eq s x = Some x \/ find_eq s x = None
   | _ => True
   end.
 Fixpoint ops_ok (s : st) (ops : list op) : Prop :=
   match ops with [] => True | o :: r => op_ok s o /\ ops_ok (fst (step s o)) r end.
+
+(* no member of this collection is appended to the other problem's collection *)
+Definition op_keeps (s : st) (o : op) : Prop :=
+  match o with FAppend x => ~ In x (objs s) | _ => True end.
+Fixpoint ops_keep (s : st) (ops : list op) : Prop :=
+  match ops with [] => True | o :: r => op_keeps s o /\ ops_keep (fst (step s o)) r end.
+
+(* == is identity (Cell, Transform, Universe) *)
+Definition key_inj (s : st) : Prop := forall a b, okey s a = okey s b -> a = b.
 
 Ltac splits := repeat match goal with |- _ /\ _ => split end.
 
@@ -32,7 +51,7 @@ Definition cache_ok (c : list (Z * oid)) (l : list oid) : Prop :=
 (* s' differs from s at most in the cache *)
 Definition cache_only (s s' : st) : Prop :=
   objs s' = objs s /\ num s' = num s /\ olink s' = olink s /\ otype s' = otype s /\
-  clink s' = clink s.
+  clink s' = clink s /\ okey s' = okey s /\ fobjs s' = fobjs s.
 
 (* a "transparent" step: only the cache changes, and cached values stay members *)
 Definition cstep (s s' : st) : Prop :=
@@ -221,17 +240,17 @@ Qed.
 (* cache_only / cstep algebra *)
 
 Lemma cache_only_refl s : cache_only s s.
-Proof. unfold cache_only; auto. Qed.
+Proof. unfold cache_only; repeat split; auto. Qed.
 
 Lemma cache_only_trans s1 s2 s3 : cache_only s1 s2 -> cache_only s2 s3 -> cache_only s1 s3.
 Proof.
   unfold cache_only.
-  intros [A1 [A2 [A3 [A4 A5]]]] [B1 [B2 [B3 [B4 B5]]]].
+  intros [A1 [A2 [A3 [A4 [A5 [A6 A7]]]]]] [B1 [B2 [B3 [B4 [B5 [B6 B7]]]]]].
   repeat split; congruence.
 Qed.
 
 Lemma cache_only_set_cache s c : cache_only s (set_cache s c).
-Proof. unfold cache_only; cbn; auto. Qed.
+Proof. unfold cache_only; cbn; repeat split; auto. Qed.
 
 Lemma cstep_refl s : cstep s s.
 Proof. split; [apply cache_only_refl | auto]. Qed.
@@ -256,19 +275,40 @@ Proof. intros [[_ [_ [H _]]] _]; exact H. Qed.
 Lemma cstep_otype s s' : cstep s s' -> otype s' = otype s.
 Proof. intros [[_ [_ [_ [H _]]]] _]; exact H. Qed.
 Lemma cstep_clink s s' : cstep s s' -> clink s' = clink s.
-Proof. intros [[_ [_ [_ [_ H]]]] _]; exact H. Qed.
+Proof. intros [[_ [_ [_ [_ [H _]]]]] _]; exact H. Qed.
+Lemma cstep_okey s s' : cstep s s' -> okey s' = okey s.
+Proof. intros [[_ [_ [_ [_ [_ [H _]]]]]] _]; exact H. Qed.
+Lemma cstep_fobjs s s' : cstep s s' -> fobjs s' = fobjs s.
+Proof. intros [[_ [_ [_ [_ [_ [_ H]]]]]] _]; exact H. Qed.
 
 Lemma cstep_numbers s s' : cstep s s' -> numbers_of s' = numbers_of s.
 Proof.
   intro H. unfold numbers_of. rewrite (cstep_objs _ _ H), (cstep_num _ _ H). reflexivity.
 Qed.
 
+Lemma cstep_fnumbers s s' : cstep s s' -> fnumbers_of s' = fnumbers_of s.
+Proof.
+  intro H. unfold fnumbers_of. rewrite (cstep_fobjs _ _ H), (cstep_num _ _ H). reflexivity.
+Qed.
+
+Lemma cstep_find_eq s s' x : cstep s s' -> find_eq s' x = find_eq s x.
+Proof.
+  intro H. unfold find_eq, oeq.
+  rewrite (cstep_objs _ _ H), (cstep_num _ _ H), (cstep_okey _ _ H). reflexivity.
+Qed.
+
 Lemma cstep_inv s s' : cstep s s' -> Inv s -> Inv s'.
 Proof.
-  intros C [I1 [I2 I3]]. unfold Inv.
-  rewrite (cstep_numbers _ _ C), (cstep_objs _ _ C), (cstep_olink _ _ C), (cstep_clink _ _ C).
-  repeat split; auto.
+  intros C [I1 I2]. unfold Inv.
+  rewrite (cstep_numbers _ _ C), (cstep_objs _ _ C).
+  split; auto.
   destruct C as [_ Hc]. apply Hc. exact I2.
+Qed.
+
+Lemma cstep_linked s s' : cstep s s' -> Linked s -> Linked s'.
+Proof.
+  intros C L. unfold Linked.
+  rewrite (cstep_objs _ _ C), (cstep_olink _ _ C), (cstep_clink _ _ C). exact L.
 Qed.
 
 Lemma cstep_atomic s s' :
@@ -379,7 +419,7 @@ Qed.
 Lemma get_lookup s n o :
   Inv s -> (snd (get s n) = Some o <-> In o (objs s) /\ num s o = n).
 Proof.
-  intros [I1 [I2 _]].
+  intros [I1 I2].
   assert (Hscan : snd (match find_num (num s) (objs s) n with
                        | Some o => (set_cache s (cache_set (cache s) n o), Some o)
                        | None => (s, None)
@@ -629,33 +669,30 @@ Qed.
 
 Lemma add_members_inv s s' l :
   Inv s ->
-  objs s' = objs s ++ l -> num s' = num s -> clink s' = clink s ->
-  (forall x, olink s x = true -> olink s' x = true) ->
-  (clink s = true -> forall x, In x l -> olink s' x = true) ->
+  objs s' = objs s ++ l -> num s' = num s ->
   cache_ok (cache s') (objs s ++ l) ->
   NoDup (map (num s) l) ->
   (forall o, In o l -> ~ In (num s o) (numbers_of s)) ->
   Inv s'.
 Proof.
-  intros [I1 [I2 I3]] Ho Hn Hc Hl1 Hl2 Hca ND Hfresh. unfold Inv, numbers_of.
-  rewrite Ho, Hn, Hc. repeat split.
+  intros [I1 I2] Ho Hn Hca ND Hfresh. unfold Inv, numbers_of.
+  rewrite Ho, Hn. split.
   - rewrite map_app. apply NoDup_app_intro; auto.
     intros x Hx Hx'. apply in_map_iff in Hx'. destruct Hx' as [o [Hox Hol]].
     apply (Hfresh o Hol). rewrite Hox. exact Hx.
   - exact Hca.
-  - intros Hcl o Hin. apply in_app_or in Hin. destruct Hin as [Hin | Hin]; auto.
 Qed.
 
 Lemma sub_members_inv s s' :
   Inv s ->
-  num s' = num s -> olink s' = olink s -> clink s' = clink s ->
+  num s' = num s ->
   (forall x, In x (objs s') -> In x (objs s)) ->
   NoDup (map (num s) (objs s')) ->
   cache_ok (cache s') (objs s') ->
   Inv s'.
 Proof.
-  intros [I1 [I2 I3]] Hn Hl Hc Hsub ND Hca. unfold Inv, numbers_of.
-  rewrite Hn, Hl, Hc. repeat split; auto.
+  intros [I1 I2] Hn Hsub ND Hca. unfold Inv, numbers_of.
+  rewrite Hn. split; auto.
 Qed.
 
 (* ------------------------------------------------------------------ *)
@@ -664,33 +701,39 @@ Qed.
 Lemma set_number_spec s o n s' r :
   set_number s o n = (s', r) ->
   (r = RErr ValueErr /\ s' = s) \/
-  (r = RErr NumberConflict /\ cstep s s' /\ In n (numbers_of s) /\ olink s o = true) \/
+  (r = RErr NumberConflict /\ cstep s s' /\
+   ((In n (numbers_of s) /\ olink s o = LThis) \/ (In n (fnumbers_of s) /\ olink s o = LOther))) \/
   (r = ROk /\ exists s1, cstep s s1 /\ s' = set_num s1 o n /\
-                         (olink s o = true -> ~ In n (numbers_of s))).
+                         (olink s o = LThis -> ~ In n (numbers_of s))).
 Proof.
   unfold set_number. destruct (n <=? 0).
   - intro H; inversion H; subst. left; auto.
   - destruct (olink s o) eqn:El.
+    + intro H; inversion H; subst. right; right. split; auto. exists s.
+      split; [apply cstep_refl |]. split; auto. discriminate.
     + destruct (check_number s n) as [s1 r1] eqn:E.
       apply check_number_spec in E. destruct E as [C [[-> Hin] | [-> Hnin]]].
       * intro H; inversion H; subst. right; left; auto.
       * intro H; inversion H; subst. right; right. split; auto. exists s1; auto.
-    + intro H; inversion H; subst. right; right. split; auto. exists s.
-      split; [apply cstep_refl |]. split; auto. discriminate.
+    + destruct (mem_Z n (fnumbers_of s)) eqn:Em.
+      * intro H; inversion H; subst. right; left. split; auto. split; [apply cstep_refl |].
+        right. split; auto. apply mem_Z_spec; exact Em.
+      * intro H; inversion H; subst. right; right. split; auto. exists s.
+        split; [apply cstep_refl |]. split; auto. discriminate.
 Qed.
 
 Lemma set_num_inv s o n :
   Inv s -> (~ In o (objs s) \/ ~ In n (numbers_of s)) -> Inv (set_num s o n).
 Proof.
-  intros [I1 [I2 I3]] H. unfold Inv, numbers_of, set_num. cbn [objs cache num olink clink].
-  repeat split; auto.
+  intros [I1 I2] H. unfold Inv, numbers_of, set_num. cbn [objs cache num].
+  split; auto.
   destruct H as [H | H].
   - rewrite map_upd_notin; auto.
   - apply NoDup_map_upd; auto.
 Qed.
 
 Lemma set_number_inv s o n :
-  Inv s -> (clink s = true \/ ~ In o (objs s) \/ ~ In n (numbers_of s)) ->
+  Inv s -> (olink s o = LThis \/ ~ In o (objs s) \/ ~ In n (numbers_of s)) ->
   Inv (fst (set_number s o n)).
 Proof.
   intros I Hok. destruct (set_number s o n) as [s' r] eqn:E. cbn [fst].
@@ -699,10 +742,7 @@ Proof.
   - eapply cstep_inv; eauto.
   - apply set_num_inv; [eapply cstep_inv; eauto |].
     rewrite (cstep_objs _ _ C), (cstep_numbers _ _ C).
-    destruct (olink s o) eqn:El.
-    + right; auto.
-    + destruct Hok as [Hc | [Hm | Hn]]; auto.
-      left. intro Hin. destruct I as [_ [_ I3]]. rewrite (I3 Hc o Hin) in El. discriminate.
+    destruct Hok as [Hc | [Hm | Hn]]; auto.
 Qed.
 
 (* ------------------------------------------------------------------ *)
@@ -711,21 +751,32 @@ Qed.
 Lemma link_if_fields s o :
   objs (link_if s o) = objs s /\ cache (link_if s o) = cache s /\ num (link_if s o) = num s /\
   otype (link_if s o) = otype s /\ clink (link_if s o) = clink s /\
-  (forall x, olink s x = true -> olink (link_if s o) x = true) /\
-  (clink s = true -> olink (link_if s o) o = true).
+  okey (link_if s o) = okey s /\ fobjs (link_if s o) = fobjs s /\
+  (forall x, olink s x = LThis -> olink (link_if s o) x = LThis) /\
+  (clink s = true -> olink (link_if s o) o = LThis) /\
+  (clink s = false -> olink (link_if s o) = olink s).
 Proof.
-  unfold link_if. destruct (clink s) eqn:E; cbn [set_link objs cache num otype clink olink].
+  unfold link_if. destruct (clink s) eqn:E;
+    cbn [set_link set_olink objs cache num otype clink olink okey fobjs].
   - repeat split; auto.
     + intros x Hx. destruct (Nat.eqb x o); auto.
     + intros _. rewrite Nat.eqb_refl. reflexivity.
+    + discriminate.
   - repeat split; auto. discriminate.
 Qed.
 
 Lemma link_if_inv s o : Inv s -> Inv (link_if s o).
 Proof.
-  intros [I1 [I2 I3]].
-  destruct (link_if_fields s o) as [Ho [Hca [Hn [_ [Hc [Hl _]]]]]].
-  unfold Inv, numbers_of. rewrite Ho, Hca, Hn, Hc. repeat split; auto.
+  intros [I1 I2].
+  destruct (link_if_fields s o) as [Ho [Hca [Hn _]]].
+  unfold Inv, numbers_of. rewrite Ho, Hca, Hn. split; auto.
+Qed.
+
+Lemma link_if_linked s o : Linked s -> Linked (link_if s o).
+Proof.
+  intros L.
+  destruct (link_if_fields s o) as [Ho [_ [_ [_ [Hc [_ [_ [Hl _]]]]]]]].
+  unfold Linked. rewrite Ho, Hc. intros Hcl x Hx. apply Hl. apply L; auto.
 Qed.
 
 Lemma link_all_fields l :
@@ -733,13 +784,14 @@ Lemma link_all_fields l :
     objs (link_all s l) = objs s /\ cache (link_all s l) = cache s /\
     num (link_all s l) = num s /\ otype (link_all s l) = otype s /\
     clink (link_all s l) = clink s /\
-    (forall x, olink s x = true -> olink (link_all s l) x = true) /\
-    (forall x, In x l -> olink (link_all s l) x = true).
+    okey (link_all s l) = okey s /\ fobjs (link_all s l) = fobjs s /\
+    (forall x, olink s x = LThis -> olink (link_all s l) x = LThis) /\
+    (forall x, In x l -> olink (link_all s l) x = LThis).
 Proof.
   induction l as [| a r IH]; intro s; cbn [link_all].
   - repeat split; auto; try (intros x []).
-  - destruct (IH (set_link s a)) as [Ho [Hca [Hn [Ht [Hc [Hl1 Hl2]]]]]].
-    cbn [set_link objs cache num otype clink olink] in *.
+  - destruct (IH (set_link s a)) as [Ho [Hca [Hn [Ht [Hc [Hk [Hf [Hl1 Hl2]]]]]]]].
+    cbn [set_link set_olink objs cache num otype clink olink okey fobjs] in *.
     repeat split; auto.
     + intros x Hx. apply Hl1. destruct (Nat.eqb x a); auto.
     + intros x [Hx | Hx]; auto. subst. apply Hl1. rewrite Nat.eqb_refl. reflexivity.
@@ -754,8 +806,10 @@ Lemma append_spec s o s' r :
   (r = RErr NumberConflict /\ cstep s s' /\ otype s o = true /\ In (num s o) (numbers_of s)) \/
   (r = ROk /\ otype s o = true /\ ~ In (num s o) (numbers_of s) /\
    objs s' = objs s ++ [o] /\ num s' = num s /\ otype s' = otype s /\ clink s' = clink s /\
-   (forall x, olink s x = true -> olink s' x = true) /\
-   (clink s = true -> olink s' o = true) /\
+   okey s' = okey s /\ fobjs s' = fobjs s /\
+   (forall x, olink s x = LThis -> olink s' x = LThis) /\
+   (clink s = true -> olink s' o = LThis) /\
+   (clink s = false -> olink s' = olink s) /\
    (cache_ok (cache s) (objs s) -> cache_ok (cache s') (objs s ++ [o]))).
 Proof.
   unfold append. destruct (otype s o) eqn:Et; cbn [negb].
@@ -767,11 +821,12 @@ Proof.
   - intro H; inversion H; subst. clear H. right; right.
     rewrite (cstep_objs _ _ C).
     match goal with |- context [link_if ?S o] => set (s3 := S) end.
-    destruct (link_if_fields s3 o) as [Ho [Hca [Hn [Ht [Hc [Hl1 Hl2]]]]]].
-    subst s3. cbn [set_objs set_cache objs cache num otype clink olink] in *.
-    rewrite Ho, Hca, Hn, Ht, Hc.
-    rewrite (cstep_num _ _ C), (cstep_otype _ _ C), (cstep_clink _ _ C).
-    rewrite (cstep_clink _ _ C) in Hl2. rewrite (cstep_olink _ _ C) in Hl1.
+    destruct (link_if_fields s3 o) as [Ho [Hca [Hn [Ht [Hc [Hk [Hf [Hl1 [Hl2 Hl3]]]]]]]]].
+    subst s3. cbn [set_objs set_cache objs cache num otype clink olink okey fobjs] in *.
+    rewrite Ho, Hca, Hn, Ht, Hc, Hk, Hf.
+    rewrite (cstep_num _ _ C), (cstep_otype _ _ C), (cstep_clink _ _ C), (cstep_okey _ _ C),
+      (cstep_fobjs _ _ C).
+    rewrite (cstep_clink _ _ C) in Hl2, Hl3. rewrite (cstep_olink _ _ C) in Hl1, Hl3.
     splits; auto.
     + intro Hin. apply Hb in Hin. discriminate.
     + intro Hok. destruct C as [_ Hcok]. specialize (Hcok Hok).
@@ -783,13 +838,21 @@ Qed.
 Lemma append_inv s o : Inv s -> Inv (fst (append s o)).
 Proof.
   intro I. destruct (append s o) as [s' r] eqn:E. cbn [fst]. apply append_spec in E.
-  destruct E as [[_ [-> _]] | [[_ [C _]] | [_ [_ [Hf [Ho [Hn [_ [Hc [Hl1 [Hl2 Hca]]]]]]]]]]]; auto.
+  destruct E as [[_ [-> _]] | [[_ [C _]] | [_ [_ [Hf [Ho [Hn [_ [_ [_ [_ [_ [_ [_ Hca]]]]]]]]]]]]]]; auto.
   - eapply cstep_inv; eauto.
   - apply (add_members_inv s s' [o]); auto.
-    + intros Hcl x [<- | []]. auto.
-    + apply Hca. destruct I as [_ [I2 _]]. exact I2.
+    + apply Hca. destruct I as [_ I2]. exact I2.
     + cbn [map]. constructor; [intros [] | constructor].
     + intros x [<- | []]. exact Hf.
+Qed.
+
+Lemma append_linked s o : Linked s -> Linked (fst (append s o)).
+Proof.
+  intro L. destruct (append s o) as [s' r] eqn:E. cbn [fst]. apply append_spec in E.
+  destruct E as [[_ [-> _]] | [[_ [C _]] | [_ [_ [_ [Ho [_ [_ [Hc [_ [_ [Hl1 [Hl2 _]]]]]]]]]]]]]; auto.
+  - eapply cstep_linked; eauto.
+  - unfold Linked. rewrite Ho, Hc. intros Hcl x Hx. apply in_app_or in Hx.
+    destruct Hx as [Hx | [<- | []]]; auto.
 Qed.
 
 (* ------------------------------------------------------------------ *)
@@ -836,18 +899,63 @@ Proof.
   destruct r4; cbn [fst]; exact I4.
 Qed.
 
-(* the only NumberConflict outcome of append_renumber is the "already a member" guard,
-   the only TypeErr outcome is the initial isinstance check *)
+(* set_number leaves members and links alone *)
+Lemma set_number_shape s o n s' r :
+  set_number s o n = (s', r) -> objs s' = objs s /\ olink s' = olink s /\ clink s' = clink s.
+Proof.
+  intro H. apply set_number_spec in H.
+  destruct H as [[_ ->] | [[_ [C _]] | [_ [s1 [C [-> _]]]]]]; auto.
+  - rewrite (cstep_objs _ _ C), (cstep_olink _ _ C), (cstep_clink _ _ C). auto.
+  - cbn [set_num objs olink clink].
+    rewrite (cstep_objs _ _ C), (cstep_olink _ _ C), (cstep_clink _ _ C). auto.
+Qed.
+
+Lemma set_number_linked s o n : Linked s -> Linked (fst (set_number s o n)).
+Proof.
+  intro L. destruct (set_number s o n) as [s' r] eqn:E. cbn [fst].
+  apply set_number_shape in E. destruct E as [Ho [Hl Hc]].
+  unfold Linked. rewrite Ho, Hl, Hc. exact L.
+Qed.
+
+Lemma append_renumber_linked s o k : Linked s -> Linked (fst (append_renumber s o k)).
+Proof.
+  intro L. unfold append_renumber.
+  destruct (negb (otype s o)); [exact L |].
+  destruct (mem_o o (objs s)) eqn:Hm; [exact L |].
+  pose proof (link_if_linked s o L) as L0.
+  destruct (append (link_if s o) o) as [s1 r1] eqn:E1.
+  pose proof (append_linked (link_if s o) o L0) as L1. rewrite E1 in L1. cbn [fst] in L1.
+  destruct r1; cbn [fst]; try exact L1.
+  destruct e; cbn [fst]; try exact L1.
+  destruct (request_number s1 (num s o) k) as [s2 r2] eqn:E2.
+  apply request_number_spec in E2. destruct E2 as [C2 _].
+  pose proof (cstep_linked _ _ C2 L1) as L2.
+  destruct r2; cbn [fst]; try exact L2.
+  destruct (set_number s2 o z) as [s3 r3] eqn:E3.
+  pose proof (set_number_linked s2 o z L2) as L3. rewrite E3 in L3. cbn [fst] in L3.
+  destruct r3; cbn [fst]; try exact L3.
+  destruct (append s3 o) as [s4 r4] eqn:E4.
+  pose proof (append_linked s3 o L3) as L4. rewrite E4 in L4. cbn [fst] in L4.
+  destruct r4; cbn [fst]; exact L4.
+Qed.
+
+Definition atomic (s s' : st) : Prop :=
+  objs s' = objs s /\ (forall x, num s' x = num s x) /\ (forall x, olink s' x = olink s x).
+
+(* the NumberConflict outcomes of append_renumber are the "already a member" guard and, for a
+   free-standing collection, the refusal of the new number by the other problem's collection;
+   the only TypeErr outcome is the initial isinstance check: members, numbers, links unchanged *)
 Lemma append_renumber_err s o k s' e :
-  append_renumber s o k = (s', RErr e) -> e = NumberConflict \/ e = TypeErr -> s' = s.
+  append_renumber s o k = (s', RErr e) -> e = NumberConflict \/ e = TypeErr ->
+  atomic s s' /\ fobjs s' = fobjs s.
 Proof.
   unfold append_renumber.
   destruct (otype s o) eqn:Et; cbn [negb].
-  2:{ intros H _; inversion H; auto. }
+  2:{ intros H _; inversion H; subst. unfold atomic; auto. }
   destruct (mem_o o (objs s)) eqn:Hm.
-  { intros H _; inversion H; auto. }
+  { intros H _; inversion H; subst. unfold atomic; auto. }
   apply mem_o_false in Hm.
-  destruct (link_if_fields s o) as [Ho0 [_ [Hn0 [Ht0 _]]]].
+  destruct (link_if_fields s o) as [Ho0 [_ [Hn0 [Ht0 [Hc0 [_ [Hf0 [_ [Hl0 Hl0']]]]]]]]].
   destruct (append (link_if s o) o) as [s1 r1] eqn:E1.
   apply append_spec in E1.
   destruct E1 as [[_ [_ Hty]] | [[-> [C1 _]] | [-> _]]].
@@ -861,9 +969,21 @@ Proof.
       by (rewrite (cstep_otype _ _ C2), (cstep_otype _ _ C1); exact Ht0).
     destruct (set_number s2 o n) as [s3 r3] eqn:E3.
     apply set_number_spec in E3.
-    destruct E3 as [[-> _] | [[-> [_ [Hin _]]] | [-> [s2' [C3 [-> _]]]]]].
+    destruct E3 as [[-> _] | [[-> [C3 [[Hin _] | [_ Hlo]]]] | [-> [s2' [C3 [-> _]]]]]].
     + intros H [-> | ->]; inversion H.
     + exfalso. apply Hfresh. rewrite <- (cstep_numbers _ _ C2). exact Hin.
+    + (* refused by the other problem's collection: the object was not relinked, so the
+         collection is free-standing *)
+      intros H _. inversion H; subst s3. clear H.
+      rewrite (cstep_olink _ _ C2), (cstep_olink _ _ C1) in Hlo.
+      destruct (clink s) eqn:Ecl.
+      { rewrite (Hl0 eq_refl) in Hlo. discriminate. }
+      unfold atomic.
+      rewrite (cstep_objs _ _ C3), Ho2.
+      rewrite (cstep_num _ _ C3), (cstep_num _ _ C2), (cstep_num _ _ C1), Hn0.
+      rewrite (cstep_olink _ _ C3), (cstep_olink _ _ C2), (cstep_olink _ _ C1), (Hl0' eq_refl).
+      rewrite (cstep_fobjs _ _ C3), (cstep_fobjs _ _ C2), (cstep_fobjs _ _ C1), Hf0.
+      auto.
     + destruct (append (set_num s2' o n) o) as [s4 r4] eqn:E4.
       apply append_spec in E4. cbn [set_num otype num] in E4.
       destruct E4 as [[_ [_ Hty]] | [[_ [_ [_ Hin]]] | [-> _]]].
@@ -962,28 +1082,33 @@ Lemma added_inv s1 c l :
   Inv (if clink s3 then link_all s3 l else s3).
 Proof.
   intros I Hc ND Hf s3.
-  assert (objs s3 = objs s1 ++ l /\ cache s3 = c /\ num s3 = num s1 /\ clink s3 = clink s1 /\
-          olink s3 = olink s1) as [Ho [Hca [Hn [Hcl Hl]]]] by (subst s3; cbn; auto).
+  assert (objs s3 = objs s1 ++ l /\ cache s3 = c /\ num s3 = num s1) as [Ho [Hca Hn]]
+    by (subst s3; cbn; auto).
   destruct (clink s3) eqn:Ecl.
-  - destruct (link_all_fields l s3) as [Ho' [Hca' [Hn' [_ [Hcl' [Hl1 Hl2]]]]]].
+  - destruct (link_all_fields l s3) as [Ho' [Hca' [Hn' _]]].
     apply (add_members_inv s1 _ l I).
     + congruence.
     + congruence.
-    + congruence.
-    + intros x Hx. apply Hl1. rewrite Hl. exact Hx.
-    + intros _ x Hx. apply Hl2; exact Hx.
     + rewrite Hca', Hca. exact Hc.
     + exact ND.
     + exact Hf.
-  - apply (add_members_inv s1 _ l I).
-    + exact Ho.
-    + exact Hn.
-    + congruence.
-    + intros x Hx. rewrite Hl. exact Hx.
-    + intro Ht. congruence.
-    + rewrite Hca. exact Hc.
-    + exact ND.
-    + exact Hf.
+  - apply (add_members_inv s1 _ l I); auto; try (rewrite Hca; exact Hc).
+Qed.
+
+Lemma added_linked s1 c l :
+  Linked s1 ->
+  let s3 := set_objs (set_cache s1 c) (objs s1 ++ l) in
+  Linked (if clink s3 then link_all s3 l else s3).
+Proof.
+  intros L s3.
+  assert (objs s3 = objs s1 ++ l /\ clink s3 = clink s1 /\ olink s3 = olink s1) as [Ho [Hcl Hl]]
+    by (subst s3; cbn; auto).
+  destruct (clink s3) eqn:Ecl.
+  - destruct (link_all_fields l s3) as [Ho' [_ [_ [_ [Hcl' [_ [_ [Hl1 Hl2]]]]]]]].
+    unfold Linked. rewrite Ho', Ho. intros _ x Hx. apply in_app_or in Hx.
+    destruct Hx as [Hx | Hx]; auto.
+    apply Hl1. rewrite Hl. apply L; [congruence | exact Hx].
+  - unfold Linked. rewrite Ecl. discriminate.
 Qed.
 
 Lemma set_cache_same s : set_cache s (cache s) = s.
@@ -1000,10 +1125,22 @@ Proof.
                set_objs (set_cache s1 (cache s1)) (objs s1 ++ l))
     by (rewrite set_cache_same; reflexivity).
   rewrite Hs. apply (added_inv s1 (cache s1) l); auto.
-  - destruct I1 as [_ [I2 _]]. eapply cache_ok_incl; eauto.
+  - destruct I1 as [_ I2]. eapply cache_ok_incl; eauto.
     intros x Hx. apply in_or_app; auto.
   - rewrite (cstep_num _ _ C). exact ND.
   - intros o Ho. rewrite (cstep_num _ _ C), (cstep_numbers _ _ C). apply Hall; auto.
+Qed.
+
+Lemma extend_linked s l : Linked s -> Linked (fst (extend s l)).
+Proof.
+  intro L. unfold extend. destruct (extend_check s l []) as [s1 e] eqn:E.
+  apply extend_check_spec in E. destruct E as [C _].
+  pose proof (cstep_linked _ _ C L) as L1.
+  destruct e as [e |]; cbn [fst]; [exact L1 |].
+  assert (Hs : set_objs s1 (objs s1 ++ l) =
+               set_objs (set_cache s1 (cache s1)) (objs s1 ++ l))
+    by (rewrite set_cache_same; reflexivity).
+  rewrite Hs. apply (added_linked s1 (cache s1) l); auto.
 Qed.
 
 Lemma iadd_inv s l : Inv s -> Inv (fst (iadd s l)).
@@ -1016,9 +1153,56 @@ Proof.
   destruct (Hnone eq_refl) as [ND Hall].
   apply (added_inv s1 (cache_add_all (num s1) (cache s1) l) l); auto.
   - intros k o Hin. apply cache_add_all_spec in Hin. apply in_or_app.
-    destruct Hin as [Hin | Hin]; auto. left. destruct I1 as [_ [I2 _]]. eauto.
+    destruct Hin as [Hin | Hin]; auto. left. destruct I1 as [_ I2]. eauto.
   - rewrite (cstep_num _ _ C). exact ND.
   - intros o Ho. rewrite (cstep_num _ _ C), (cstep_numbers _ _ C). apply Hall; auto.
+Qed.
+
+Lemma iadd_linked s l : Linked s -> Linked (fst (iadd s l)).
+Proof.
+  intro L. unfold iadd. destruct (negb (forallb (otype s) l)); [exact L |].
+  destruct (iadd_check s l []) as [s1 b] eqn:E.
+  apply iadd_check_spec in E. destruct E as [C _].
+  pose proof (cstep_linked _ _ C L) as L1.
+  destruct b; cbn [fst]; [exact L1 |].
+  apply (added_linked s1 (cache_add_all (num s1) (cache s1) l) l); auto.
+Qed.
+
+(* ------------------------------------------------------------------ *)
+(* Python == on objects *)
+
+Lemma oeq_refl s x : oeq s x x = true.
+Proof. unfold oeq. rewrite Nat.eqb_refl. reflexivity. Qed.
+
+Lemma oeq_true s a b :
+  oeq s a b = true -> a = b \/ (okey s a = okey s b /\ num s a = num s b).
+Proof.
+  unfold oeq. intro H. apply orb_true_iff in H. destruct H as [H | H].
+  - left. apply Nat.eqb_eq; exact H.
+  - right. apply andb_true_iff in H. destruct H as [H1 H2].
+    split; [apply Nat.eqb_eq; exact H1 | apply Z.eqb_eq; exact H2].
+Qed.
+
+Lemma find_eq_some s x e : find_eq s x = Some e -> In e (objs s) /\ oeq s e x = true.
+Proof. unfold find_eq. intro H. apply find_some in H. exact H. Qed.
+
+(* a member is found as itself when numbers are unique *)
+Lemma find_eq_member s x :
+  NoDup (numbers_of s) -> In x (objs s) -> find_eq s x = Some x.
+Proof.
+  intros ND Hin. destruct (find_eq s x) as [e |] eqn:E.
+  - apply find_eq_some in E. destruct E as [He Heq]. apply oeq_true in Heq.
+    destruct Heq as [-> | [_ Hn]]; auto.
+    f_equal. eapply NoDup_map_inj_on; eauto.
+  - exfalso. unfold find_eq in E.
+    pose proof (find_none _ _ E x Hin) as H. cbv beta in H. rewrite oeq_refl in H. discriminate.
+Qed.
+
+(* when == is identity, remove(x) finds x or nothing *)
+Lemma find_eq_inj s x e : key_inj s -> find_eq s x = Some e -> e = x.
+Proof.
+  intros Hk E. apply find_eq_some in E. destruct E as [_ Heq]. apply oeq_true in Heq.
+  destruct Heq as [-> | [Hkey _]]; auto.
 Qed.
 
 (* ------------------------------------------------------------------ *)
@@ -1032,15 +1216,24 @@ Proof.
   apply cache_pop_in in Hin. eauto.
 Qed.
 
-Lemma remove_inv s o : Inv s -> Inv (fst (remove s o)).
+Lemma remove_inv s x :
+  Inv s -> (find_eq s x = Some x \/ find_eq s x = None) -> Inv (fst (remove s x)).
 Proof.
-  intro I. unfold remove. destruct (mem_o o (objs s)); cbn [fst].
+  intros I Hok. unfold remove. destruct Hok as [E | E]; rewrite E; cbn [fst].
   - apply (sub_members_inv s); auto; cbn [set_objs set_cache objs cache].
-    + intros x. apply remove_first_in.
+    + intros y. apply remove_first_in.
     + apply NoDup_map_remove_first. destruct I as [I1 _]. exact I1.
-    + destruct I as [_ [I2 _]]. eapply evicted_ok; eauto.
-      intros x Hx Hne. apply remove_first_keep; auto.
+    + destruct I as [_ I2]. eapply evicted_ok; eauto.
+      intros y Hy Hne. apply remove_first_keep; auto.
   - eapply cstep_inv; eauto. apply cstep_set_cache. apply cache_ok_pop.
+Qed.
+
+Lemma remove_linked s x : Linked s -> Linked (fst (remove s x)).
+Proof.
+  intro L. unfold remove. destruct (find_eq s x) as [e |]; cbn [fst].
+  - unfold Linked. cbn [set_objs set_cache objs olink clink].
+    intros Hc y Hy. apply L; auto. eapply remove_first_in; eauto.
+  - eapply cstep_linked; eauto. apply cstep_set_cache. apply cache_ok_pop.
 Qed.
 
 Lemma pop_inv s p : Inv s -> Inv (fst (pop s p)).
@@ -1053,80 +1246,102 @@ Proof.
   cbn [fst]. apply (sub_members_inv s); auto; cbn [set_objs set_cache objs cache].
   - intros x. apply remove_nth_in.
   - apply NoDup_map_remove_nth. destruct I as [I1 _]. exact I1.
-  - destruct I as [_ [I2 _]]. eapply evicted_ok; eauto.
+  - destruct I as [_ I2]. eapply evicted_ok; eauto.
     intros x Hx Hne. eapply remove_nth_keep; eauto.
+Qed.
+
+Lemma pop_linked s p : Linked s -> Linked (fst (pop s p)).
+Proof.
+  intro L. unfold pop.
+  match goal with |- context [if ?b then (s, RErr IndexErr) else _] => destruct b end;
+    [exact L |].
+  match goal with |- context [nth_error (objs s) ?i] =>
+    destruct (nth_error (objs s) i) as [o |] eqn:En; [| exact L] end.
+  cbn [fst]. unfold Linked. cbn [set_objs set_cache objs olink clink].
+  intros Hc y Hy. apply L; auto. eapply remove_nth_in; eauto.
 Qed.
 
 Lemma delitem_inv s n : Inv s -> Inv (fst (delitem s n)).
 Proof.
   intro I. unfold delitem.
-  pose proof (get_cstep s n) as C. destruct (get s n) as [s1 [o |]]; cbn [fst] in *.
+  pose proof (get_cstep s n) as C. destruct (get s n) as [s1 [o |]] eqn:G; cbn [fst] in *.
   - pose proof (cstep_inv _ _ C I) as I1.
+    apply get_some_in in G; auto. destruct G as [Hin _].
+    rewrite <- (cstep_objs _ _ C) in Hin.
+    rewrite (find_eq_member s1 o); [| destruct I1 as [I11 _]; exact I11 | exact Hin].
+    cbn [fst].
     apply (sub_members_inv s1); auto; cbn [set_objs set_cache objs cache].
     + intros x. apply remove_first_in.
     + apply NoDup_map_remove_first. destruct I1 as [I11 _]. exact I11.
-    + destruct I1 as [_ [I2 _]]. eapply evicted_ok; eauto.
+    + destruct I1 as [_ I2]. eapply evicted_ok; eauto.
       intros x Hx Hne. apply remove_first_keep; auto.
   - eapply cstep_inv; eauto.
 Qed.
 
+Lemma delitem_linked s n : Linked s -> Linked (fst (delitem s n)).
+Proof.
+  intro L. unfold delitem.
+  pose proof (get_cstep s n) as C. destruct (get s n) as [s1 [o |]]; cbn [fst] in *.
+  - pose proof (cstep_linked _ _ C L) as L1.
+    destruct (find_eq s1 o) as [e |]; cbn [fst].
+    + unfold Linked. cbn [set_objs set_cache objs olink clink].
+      intros Hc y Hy. apply L1; auto. eapply remove_first_in; eauto.
+    + eapply cstep_linked; eauto. apply cstep_set_cache. apply cache_ok_pop.
+  - eapply cstep_linked; eauto.
+Qed.
+
 Lemma clear_inv s : Inv s -> Inv (fst (clear s)).
 Proof.
-  intros [I1 [I2 I3]]. unfold clear, Inv, numbers_of. cbn.
-  repeat split.
+  intros [I1 I2]. unfold clear, Inv, numbers_of. cbn.
+  split.
   - constructor.
   - intros n o [].
-  - intros _ o [].
+Qed.
+
+Lemma clear_linked s : Linked s -> Linked (fst (clear s)).
+Proof. intros L. unfold clear, Linked. cbn. intros _ o []. Qed.
+
+(* the other problem's collection *)
+Lemma fappend_inv s x : Inv s -> Inv (fst (fappend s x)).
+Proof.
+  intro I. unfold fappend. destruct (negb (otype s x)); [exact I |].
+  destruct (mem_Z (num s x) (fnumbers_of s)); exact I.
+Qed.
+
+Lemma fappend_linked s x : Linked s -> ~ In x (objs s) -> Linked (fst (fappend s x)).
+Proof.
+  intros L Hn. unfold fappend. destruct (negb (otype s x)); [exact L |].
+  destruct (mem_Z (num s x) (fnumbers_of s)); [exact L |].
+  cbn [fst]. unfold Linked. cbn [set_olink set_fobjs objs olink clink].
+  intros Hc y Hy. destruct (Nat.eqb y x) eqn:E.
+  - apply Nat.eqb_eq in E. subst. contradiction.
+  - apply L; auto.
+Qed.
+
+Lemma slice_append_cstep s a b c x : cstep s (fst (slice_append s a b c x)).
+Proof.
+  unfold slice_append. destruct (slice_spec s a b c) as [C _].
+  destruct (slice s a b c) as [s1 r]. cbn [fst] in C.
+  destruct r; cbn [fst]; try exact C.
+  destruct (negb (otype s1 x)); [exact C |].
+  destruct (mem_Z (num s1 x) (map (num s1) l)); exact C.
 Qed.
 
 (* ------------------------------------------------------------------ *)
 (* Headline lemmas *)
 
-Lemma step_inv s o : Inv s -> op_ok s o -> Inv (fst (step s o)).
-Proof.
-  intros I Hok. destruct o as [x | x k | l | l | key x | x | p | n | | x n | n | n | x | | | | n | a k | k | a b c]; cbn [Coll.step].
-  - apply append_inv; auto.
-  - apply append_renumber_inv; auto.
-  - apply extend_inv; auto.
-  - apply iadd_inv; auto.
-  - apply append_inv; auto.
-  - apply remove_inv; auto.
-  - apply pop_inv; auto.
-  - apply delitem_inv; auto.
-  - apply clear_inv; auto.
-  - apply set_number_inv; auto.
-  - pose proof (get_cstep s n) as C. destruct (get s n) as [s1 r]. cbn [fst] in *.
-    eapply cstep_inv; eauto.
-  - pose proof (get_cstep s n) as C. destruct (get s n) as [s1 [x |]]; cbn [fst] in *;
-      eapply cstep_inv; eauto.
-  - exact I.
-  - destruct (all_numbers_spec s) as [C _]. destruct (all_numbers s) as [s1 ns].
-    cbn [fst] in *. eapply cstep_inv; eauto.
-  - exact I.
-  - exact I.
-  - destruct (check_number s n) as [s1 r] eqn:E. apply check_number_spec in E.
-    destruct E as [C _]. cbn [fst]. eapply cstep_inv; eauto.
-  - apply request_number_inv; auto.
-  - eapply cstep_inv; [apply next_number_cstep | exact I].
-  - eapply cstep_inv; [apply slice_spec | exact I].
-Qed.
-
-Lemma run_inv : forall ops s, Inv s -> ops_ok s ops -> Inv (run s ops).
-Proof.
-  induction ops as [| o r IH]; intros s I Hok; cbn [run].
-  - exact I.
-  - destruct Hok as [Ho Hr]. apply IH; auto. apply step_inv; auto.
-Qed.
+Ltac op_cases o :=
+  destruct o as [x | x k | l | l | key x | x | p | n | | x n | n | n | x | | | | n | a k | k | a b c | x | a b c x].
 
 (* operations whose only effect is on the cache, whatever the result *)
 Lemma step_transparent s o :
   match o with
   | Get _ | GetItem _ | Contains _ | Numbers | Keys | Len | CheckNumber _
-  | RequestNumber _ _ | NextNumber _ | Slice _ _ _ => cstep s (fst (step s o))
+  | RequestNumber _ _ | NextNumber _ | Slice _ _ _ | SliceAppend _ _ _ _ => cstep s (fst (step s o))
   | _ => True
   end.
 Proof.
-  destruct o as [x | x k | l | l | key x | x | p | n | | x n | n | n | x | | | | n | a k | k | a b c]; cbn [Coll.step]; auto.
+  op_cases o; cbn [Coll.step]; auto.
   - pose proof (get_cstep s n) as C. destruct (get s n) as [s1 r]. exact C.
   - pose proof (get_cstep s n) as C. destruct (get s n) as [s1 [x |]]; exact C.
   - apply cstep_refl.
@@ -1139,40 +1354,308 @@ Proof.
     destruct E as [C _]. exact C.
   - apply next_number_cstep.
   - apply slice_spec.
+  - apply slice_append_cstep.
 Qed.
 
-Definition atomic (s s' : st) : Prop :=
-  objs s' = objs s /\ (forall x, num s' x = num s x) /\ (forall x, olink s' x = olink s x).
+Lemma step_inv s o : Inv s -> op_ok s o -> Inv (fst (step s o)).
+Proof.
+  intros I Hok. pose proof (step_transparent s o) as T.
+  op_cases o; cbn [Coll.step] in *; try (eapply cstep_inv; eauto; fail).
+  - apply append_inv; auto.
+  - apply append_renumber_inv; auto.
+  - apply extend_inv; auto.
+  - apply iadd_inv; auto.
+  - apply append_inv; auto.
+  - apply remove_inv; auto.
+  - apply pop_inv; auto.
+  - apply delitem_inv; auto.
+  - apply clear_inv; auto.
+  - apply set_number_inv; auto.
+  - apply fappend_inv; auto.
+Qed.
+
+Lemma run_inv : forall ops s, Inv s -> ops_ok s ops -> Inv (run s ops).
+Proof.
+  induction ops as [| o r IH]; intros s I Hok; cbn [run].
+  - exact I.
+  - destruct Hok as [Ho Hr]. apply IH; auto. apply step_inv; auto.
+Qed.
+
+Lemma step_linked s o : Linked s -> op_keeps s o -> Linked (fst (step s o)).
+Proof.
+  intros L Hk. pose proof (step_transparent s o) as T.
+  op_cases o; cbn [Coll.step] in *; try (eapply cstep_linked; eauto; fail).
+  - apply append_linked; auto.
+  - apply append_renumber_linked; auto.
+  - apply extend_linked; auto.
+  - apply iadd_linked; auto.
+  - apply append_linked; auto.
+  - apply remove_linked; auto.
+  - apply pop_linked; auto.
+  - apply delitem_linked; auto.
+  - apply clear_linked; auto.
+  - apply set_number_linked; auto.
+  - apply fappend_linked; auto.
+Qed.
+
+Lemma run_linked : forall ops s, Linked s -> ops_keep s ops -> Linked (run s ops).
+Proof.
+  induction ops as [| o r IH]; intros s L Hk; cbn [run].
+  - exact L.
+  - destruct Hk as [Ho Hr]. apply IH; auto. apply step_linked; auto.
+Qed.
+
+(* the value class of an object never changes *)
+Lemma append_okey s o : okey (fst (append s o)) = okey s.
+Proof.
+  destruct (append s o) as [s' r] eqn:E. cbn [fst]. apply append_spec in E.
+  destruct E as [[_ [-> _]] | [[_ [C _]] | [_ [_ [_ [_ [_ [_ [_ [Hk _]]]]]]]]]]; auto.
+  apply cstep_okey; auto.
+Qed.
+
+Lemma set_number_okey s o n : okey (fst (set_number s o n)) = okey s.
+Proof.
+  destruct (set_number s o n) as [s' r] eqn:E. cbn [fst]. apply set_number_spec in E.
+  destruct E as [[_ ->] | [[_ [C _]] | [_ [s1 [C [-> _]]]]]]; auto.
+  - apply cstep_okey; auto.
+  - cbn [set_num okey]. apply cstep_okey; auto.
+Qed.
+
+Lemma step_okey s o : okey (fst (step s o)) = okey s.
+Proof.
+  pose proof (step_transparent s o) as T.
+  op_cases o; cbn [Coll.step] in *; try (apply cstep_okey; exact T).
+  - apply append_okey.
+  - unfold append_renumber.
+    destruct (negb (otype s x)); [reflexivity |].
+    destruct (mem_o x (objs s)); [reflexivity |].
+    destruct (link_if_fields s x) as [_ [_ [_ [_ [_ [Hk0 _]]]]]].
+    pose proof (append_okey (link_if s x) x) as K1.
+    destruct (append (link_if s x) x) as [s1 r1]. cbn [fst] in K1. rewrite Hk0 in K1.
+    destruct r1; cbn [fst]; try exact K1.
+    destruct e; cbn [fst]; try exact K1.
+    destruct (request_number s1 (num s x) k) as [s2 r2] eqn:E2.
+    apply request_number_spec in E2. destruct E2 as [C2 _].
+    pose proof (cstep_okey _ _ C2) as K2. rewrite K1 in K2.
+    destruct r2; cbn [fst]; try exact K2.
+    pose proof (set_number_okey s2 x z) as K3.
+    destruct (set_number s2 x z) as [s3 r3]. cbn [fst] in K3. rewrite K2 in K3.
+    destruct r3; cbn [fst]; try exact K3.
+    pose proof (append_okey s3 x) as K4.
+    destruct (append s3 x) as [s4 r4]. cbn [fst] in K4. rewrite K3 in K4.
+    destruct r4; cbn [fst]; exact K4.
+  - unfold extend. destruct (extend_check s l []) as [s1 e] eqn:E.
+    apply extend_check_spec in E. destruct E as [C _].
+    destruct e; cbn [fst]; [apply cstep_okey; exact C |].
+    destruct (clink (set_objs s1 (objs s1 ++ l))).
+    + destruct (link_all_fields l (set_objs s1 (objs s1 ++ l))) as [_ [_ [_ [_ [_ [Hk _]]]]]].
+      rewrite Hk. cbn [set_objs okey]. apply cstep_okey; exact C.
+    + cbn [set_objs okey]. apply cstep_okey; exact C.
+  - unfold iadd. destruct (negb (forallb (otype s) l)); [reflexivity |].
+    destruct (iadd_check s l []) as [s1 b] eqn:E.
+    apply iadd_check_spec in E. destruct E as [C _].
+    destruct b; cbn [fst]; [apply cstep_okey; exact C |].
+    match goal with |- okey (if clink ?S then _ else _) = _ => set (s3 := S) end.
+    destruct (clink s3).
+    + destruct (link_all_fields l s3) as [_ [_ [_ [_ [_ [Hk _]]]]]].
+      rewrite Hk. subst s3. cbn [set_objs set_cache okey]. apply cstep_okey; exact C.
+    + subst s3. cbn [set_objs set_cache okey]. apply cstep_okey; exact C.
+  - apply append_okey.
+  - unfold remove. destruct (find_eq s x); reflexivity.
+  - unfold pop.
+    match goal with |- context [if ?b then (s, RErr IndexErr) else _] => destruct b end;
+      [reflexivity |].
+    match goal with |- context [nth_error (objs s) ?i] => destruct (nth_error (objs s) i) end;
+      reflexivity.
+  - unfold delitem. pose proof (get_cstep s n) as C.
+    destruct (get s n) as [s1 [o |]]; cbn [fst] in *.
+    + destruct (find_eq s1 o); cbn [fst set_objs set_cache okey]; apply cstep_okey; exact C.
+    + apply cstep_okey; exact C.
+  - reflexivity.
+  - apply set_number_okey.
+  - unfold fappend. destruct (negb (otype s x)); [reflexivity |].
+    destruct (mem_Z (num s x) (fnumbers_of s)); reflexivity.
+Qed.
+
+Lemma step_key_inj s o : key_inj s -> key_inj (fst (step s o)).
+Proof. unfold key_inj. rewrite step_okey. auto. Qed.
+
+(* a problem's collection of a kind whose == is identity, whose members are not taken over by
+   another problem: every operation is inside the premise *)
+Lemma linked_identity_ok s o :
+  Inv s -> Linked s -> clink s = true -> key_inj s -> op_ok s o.
+Proof.
+  intros I L Hc Hk. destruct o; cbn [op_ok]; auto.
+  - (* Remove *)
+    destruct (find_eq s o) as [e |] eqn:E; auto.
+    left. f_equal. eapply find_eq_inj; eauto.
+  - (* SetNum *)
+    destruct (mem_o o (objs s)) eqn:Em.
+    + left. apply L; auto. apply mem_o_spec; exact Em.
+    + right; left. apply mem_o_false; exact Em.
+Qed.
+
+Lemma step_clink s o : clink (fst (step s o)) = clink s.
+Proof.
+  pose proof (step_transparent s o) as T.
+  op_cases o; cbn [Coll.step] in *; try (apply cstep_clink; exact T).
+  - destruct (append s x) as [s' r] eqn:E. cbn [fst]. apply append_spec in E.
+    destruct E as [[_ [-> _]] | [[_ [C _]] | [_ [_ [_ [_ [_ [_ [Hc _]]]]]]]]]; auto.
+    apply cstep_clink; auto.
+  - unfold append_renumber.
+    destruct (negb (otype s x)); [reflexivity |].
+    destruct (mem_o x (objs s)); [reflexivity |].
+    destruct (link_if_fields s x) as [_ [_ [_ [_ [Hc0 _]]]]].
+    assert (forall t y, clink (fst (append t y)) = clink t) as HA.
+    { intros t y. destruct (append t y) as [t' r] eqn:E. cbn [fst]. apply append_spec in E.
+      destruct E as [[_ [-> _]] | [[_ [C _]] | [_ [_ [_ [_ [_ [_ [Hc _]]]]]]]]]; auto.
+      apply cstep_clink; auto. }
+    pose proof (HA (link_if s x) x) as K1.
+    destruct (append (link_if s x) x) as [s1 r1]. cbn [fst] in K1. rewrite Hc0 in K1.
+    destruct r1; cbn [fst]; try exact K1.
+    destruct e; cbn [fst]; try exact K1.
+    destruct (request_number s1 (num s x) k) as [s2 r2] eqn:E2.
+    apply request_number_spec in E2. destruct E2 as [C2 _].
+    pose proof (cstep_clink _ _ C2) as K2. rewrite K1 in K2.
+    destruct r2; cbn [fst]; try exact K2.
+    destruct (set_number s2 x z) as [s3 r3] eqn:E3.
+    apply set_number_shape in E3. destruct E3 as [_ [_ K3]]. rewrite K2 in K3.
+    destruct r3; cbn [fst]; try exact K3.
+    pose proof (HA s3 x) as K4.
+    destruct (append s3 x) as [s4 r4]. cbn [fst] in K4. rewrite K3 in K4.
+    destruct r4; cbn [fst]; exact K4.
+  - unfold extend. destruct (extend_check s l []) as [s1 e] eqn:E.
+    apply extend_check_spec in E. destruct E as [C _].
+    destruct e; cbn [fst]; [apply cstep_clink; exact C |].
+    destruct (clink (set_objs s1 (objs s1 ++ l))) eqn:Ec.
+    + destruct (link_all_fields l (set_objs s1 (objs s1 ++ l))) as [_ [_ [_ [_ [Hk _]]]]].
+      rewrite Hk. cbn [set_objs clink]. apply cstep_clink; exact C.
+    + cbn [set_objs clink]. apply cstep_clink; exact C.
+  - unfold iadd. destruct (negb (forallb (otype s) l)); [reflexivity |].
+    destruct (iadd_check s l []) as [s1 b] eqn:E.
+    apply iadd_check_spec in E. destruct E as [C _].
+    destruct b; cbn [fst]; [apply cstep_clink; exact C |].
+    match goal with |- clink (if clink ?S then _ else _) = _ => set (s3 := S) end.
+    destruct (clink s3) eqn:Ec.
+    + destruct (link_all_fields l s3) as [_ [_ [_ [_ [Hk _]]]]].
+      rewrite Hk. subst s3. cbn [set_objs set_cache clink]. apply cstep_clink; exact C.
+    + subst s3. cbn [set_objs set_cache clink]. apply cstep_clink; exact C.
+  - destruct (append s x) as [s' r] eqn:E. cbn [fst]. apply append_spec in E.
+    destruct E as [[_ [-> _]] | [[_ [C _]] | [_ [_ [_ [_ [_ [_ [Hc _]]]]]]]]]; auto.
+    apply cstep_clink; auto.
+  - unfold remove. destruct (find_eq s x); reflexivity.
+  - unfold pop.
+    match goal with |- context [if ?b then (s, RErr IndexErr) else _] => destruct b end;
+      [reflexivity |].
+    match goal with |- context [nth_error (objs s) ?i] => destruct (nth_error (objs s) i) end;
+      reflexivity.
+  - unfold delitem. pose proof (get_cstep s n) as C.
+    destruct (get s n) as [s1 [o |]]; cbn [fst] in *.
+    + destruct (find_eq s1 o); cbn [fst set_objs set_cache clink]; apply cstep_clink; exact C.
+    + apply cstep_clink; exact C.
+  - reflexivity.
+  - destruct (set_number s x n) as [s' r] eqn:E. cbn [fst].
+    apply set_number_shape in E. destruct E as [_ [_ K]]. exact K.
+  - unfold fappend. destruct (negb (otype s x)); [reflexivity |].
+    destruct (mem_Z (num s x) (fnumbers_of s)); reflexivity.
+Qed.
+
+Lemma run_inv_identity :
+  forall ops s, Inv s -> Linked s -> clink s = true -> key_inj s -> ops_keep s ops ->
+    Inv (run s ops) /\ Linked (run s ops).
+Proof.
+  induction ops as [| o r IH]; intros s I L Hc Hk Hkeep; cbn [run].
+  - auto.
+  - destruct Hkeep as [Ho Hr]. apply IH; auto.
+    + apply step_inv; auto. apply linked_identity_ok; auto.
+    + apply step_linked; auto.
+    + rewrite step_clink. exact Hc.
+    + apply step_key_inj; auto.
+Qed.
+
+(* a problem's collection of any kind (Surface and Material included): the only premise left is
+   that remove() is given the member itself *)
+Definition op_same (s : st) (o : op) : Prop :=
+  match o with Remove x => find_eq s x = Some x \/ find_eq s x = None | _ => True end.
+Fixpoint ops_same (s : st) (ops : list op) : Prop :=
+  match ops with [] => True | o :: r => op_same s o /\ ops_same (fst (step s o)) r end.
+
+Lemma linked_ok s o : Linked s -> clink s = true -> op_same s o -> op_ok s o.
+Proof.
+  intros L Hc Hs. destruct o; cbn [op_ok op_same] in *; auto.
+  destruct (mem_o o (objs s)) eqn:Em.
+  - left. apply L; auto. apply mem_o_spec; exact Em.
+  - right; left. apply mem_o_false; exact Em.
+Qed.
+
+Lemma run_inv_linked :
+  forall ops s, Inv s -> Linked s -> clink s = true -> ops_keep s ops -> ops_same s ops ->
+    Inv (run s ops) /\ Linked (run s ops).
+Proof.
+  induction ops as [| o r IH]; intros s I L Hc Hkeep Hsame; cbn [run].
+  - auto.
+  - destruct Hkeep as [Ho Hr]. destruct Hsame as [Hs Hsr]. apply IH; auto.
+    + apply step_inv; auto. apply linked_ok; auto.
+    + apply step_linked; auto.
+    + rewrite step_clink. exact Hc.
+Qed.
+
+(* the boolean premises used by the harness are the premises of the theorems *)
+Lemma op_okb_spec s o : op_okb s o = true <-> op_ok s o.
+Proof.
+  destruct o; cbn [op_okb op_ok]; try tauto.
+  - (* Remove *)
+    unfold remove_same. destruct (find_eq s o) as [e |] eqn:E.
+    + rewrite Nat.eqb_eq. split.
+      * intros ->. auto.
+      * intros [H | H]; [inversion H; auto | discriminate].
+    + split; auto.
+  - (* SetNum *)
+    unfold setnum_seen. rewrite !orb_true_iff, !negb_true_iff. split.
+    + intros [[H | H] | H].
+      * left. destruct (olink s o); congruence.
+      * right; left. apply mem_o_false; exact H.
+      * right; right. intro Hin. apply mem_Z_spec in Hin. congruence.
+    + intros [H | [H | H]].
+      * left; left. rewrite H. reflexivity.
+      * left; right. destruct (mem_o o (objs s)) eqn:E; auto.
+        apply mem_o_spec in E. contradiction.
+      * right. destruct (mem_Z n (numbers_of s)) eqn:E; auto.
+        apply mem_Z_spec in E. contradiction.
+Qed.
 
 Lemma err_atomic s o s' e :
-  step s o = (s', RErr e) -> e = NumberConflict \/ e = TypeErr -> atomic s s'.
+  step s o = (s', RErr e) -> e = NumberConflict \/ e = TypeErr -> atomic s s' /\ fobjs s' = fobjs s.
 Proof.
   intros H He.
+  assert (forall t t', cstep t t' -> atomic t t' /\ fobjs t' = fobjs t) as CA.
+  { intros t t' C. split; [apply cstep_atomic; exact C | apply cstep_fobjs; exact C]. }
+  assert (atomic s s /\ fobjs s = fobjs s) as AR by (unfold atomic; auto).
   pose proof (step_transparent s o) as T.
-  destruct o as [x | x k | l | l | key x | x | p | n | | x n | n | n | x | | | | n | a k | k | a b c]; cbn [Coll.step] in H, T;
-    try (rewrite H in T; cbn [fst] in T; apply cstep_atomic; exact T).
+  op_cases o; cbn [Coll.step] in H, T;
+    try (rewrite H in T; cbn [fst] in T; apply CA; exact T).
   - (* Append *)
     apply append_spec in H.
     destruct H as [[_ [-> _]] | [[_ [C _]] | [Hr _]]];
-      [apply atomic_refl | apply cstep_atomic; exact C | discriminate].
+      [exact AR | apply CA; exact C | discriminate].
   - (* AppendRenumber *)
-    apply append_renumber_err in H; auto. subst. apply atomic_refl.
+    apply append_renumber_err in H; auto.
   - (* Extend *)
     unfold extend in H. destruct (extend_check s l []) as [s1 e1] eqn:E.
     apply extend_check_spec in E. destruct E as [C _].
-    destruct e1; inversion H; subst. apply cstep_atomic; exact C.
+    destruct e1; inversion H; subst. apply CA; exact C.
   - (* Iadd *)
     unfold iadd in H. destruct (negb (forallb (otype s) l)).
-    + inversion H; subst. apply atomic_refl.
+    + inversion H; subst. exact AR.
     + destruct (iadd_check s l []) as [s1 b] eqn:E.
       apply iadd_check_spec in E. destruct E as [C _].
-      destruct b; inversion H; subst. apply cstep_atomic; exact C.
+      destruct b; inversion H; subst. apply CA; exact C.
   - (* SetItem *)
     apply append_spec in H.
     destruct H as [[_ [-> _]] | [[_ [C _]] | [Hr _]]];
-      [apply atomic_refl | apply cstep_atomic; exact C | discriminate].
+      [exact AR | apply CA; exact C | discriminate].
   - (* Remove *)
-    unfold remove in H. destruct (mem_o x (objs s)); inversion H; subst.
+    unfold remove in H. destruct (find_eq s x); inversion H; subst.
     destruct He; discriminate.
   - (* Pop *)
     unfold pop in H.
@@ -1181,14 +1664,19 @@ Proof.
     + match type of H with context [nth_error (objs s) ?i] =>
         destruct (nth_error (objs s) i) end; inversion H; subst. destruct He; discriminate.
   - (* DelItem *)
-    unfold delitem in H. destruct (get s n) as [s1 [y |]]; inversion H; subst.
-    destruct He; discriminate.
+    unfold delitem in H. destruct (get s n) as [s1 [y |]].
+    + destruct (find_eq s1 y); inversion H; subst. destruct He; discriminate.
+    + inversion H; subst. destruct He; discriminate.
   - (* Clear *)
     unfold clear in H. inversion H.
   - (* SetNum *)
     apply set_number_spec in H.
     destruct H as [[Hr _] | [[_ [C _]] | [Hr _]]];
-      [inversion Hr; subst; destruct He; discriminate | apply cstep_atomic; exact C | discriminate].
+      [inversion Hr; subst; destruct He; discriminate | apply CA; exact C | discriminate].
+  - (* FAppend *)
+    unfold fappend in H. destruct (negb (otype s x)).
+    + inversion H; subst. exact AR.
+    + destruct (mem_Z (num s x) (fnumbers_of s)); inversion H; subst. exact AR.
 Qed.
 
 Lemma conflict_atomic s o s' :
@@ -1199,6 +1687,15 @@ Proof. intros _ H. apply (err_atomic s o s' NumberConflict); auto. Qed.
 Lemma type_error_atomic s o s' :
   step s o = (s', RErr TypeErr) ->
   objs s' = objs s /\ (forall x, num s' x = num s x) /\ (forall x, olink s' x = olink s x).
+Proof. intros H. apply (err_atomic s o s' TypeErr); auto. Qed.
+
+(* the other problem's collection is left alone too *)
+Lemma conflict_atomic_foreign s o s' :
+  step s o = (s', RErr NumberConflict) -> fobjs s' = fobjs s.
+Proof. intros H. apply (err_atomic s o s' NumberConflict); auto. Qed.
+
+Lemma type_error_atomic_foreign s o s' :
+  step s o = (s', RErr TypeErr) -> fobjs s' = fobjs s.
 Proof. intros H. apply (err_atomic s o s' TypeErr); auto. Qed.
 
 (* ------------------------------------------------------------------ *)
@@ -1227,23 +1724,116 @@ Proof.
       * right; right; exact Hk.
 Qed.
 
-Lemma init_inv l numf lk ty cl s :
-  init l numf lk ty cl = Some s ->
-  (cl = true -> forall o, In o l -> lk o = true) -> Inv s.
+Lemma init_inv l numf kf lk ty cl fl s :
+  init l numf kf lk ty cl fl = Some s -> Inv s.
 Proof.
   unfold init. destruct (negb (forallb ty l)); [discriminate |].
   destruct (init_cache numf l []) as [c |] eqn:E; [| discriminate].
-  intros H Hl. inversion H; subst. apply init_cache_spec in E.
+  intros H. inversion H; subst. apply init_cache_spec in E.
   destruct E as [ND [_ Hin]].
-  unfold Inv, numbers_of. cbn [objs cache num olink clink]. splits; auto.
+  unfold Inv, numbers_of. cbn [objs cache num]. split; auto.
   intros n o Hc. apply Hin in Hc. destruct Hc as [[] | Hc]; exact Hc.
+Qed.
+
+Lemma init_linked l numf kf lk ty cl fl s :
+  init l numf kf lk ty cl fl = Some s ->
+  (cl = true -> forall o, In o l -> lk o = LThis) -> Linked s.
+Proof.
+  unfold init. destruct (negb (forallb ty l)); [discriminate |].
+  destruct (init_cache numf l []) as [c |]; [| discriminate].
+  intros H Hl. inversion H; subst. unfold Linked. cbn [objs olink clink]. exact Hl.
+Qed.
+
+(* ------------------------------------------------------------------ *)
+(* the unchanged code does not keep the invariant when remove() is given an equal object that is
+   not the member: objects 0 and 1 have the same value; 0 is the only member, numbered 5, object 1
+   is numbered 6.  Member 0 is renumbered 5 -> 6 (the cache keeps 5 -> 0), remove(1) takes out
+   member 0 but evicts the entries of object 1; object 0 is renumbered back to 5:
+   get(5) answers object 0, which is not a member. *)
+Definition refute_st : st :=
+  mkst [0%nat] [(5, 0%nat)] (fun o => if Nat.eqb o 0 then 5 else 6) (fun _ => 0%nat)
+       (fun o => if Nat.eqb o 0 then LThis else LNone) (fun _ => true) true [].
+Definition refute_ops : list op := [SetNum 0%nat 6; Remove 1%nat; SetNum 0%nat 5].
+
+Lemma refute_st_init :
+  init [0%nat] (fun o => if Nat.eqb o 0 then 5 else 6) (fun _ => 0%nat)
+       (fun o => if Nat.eqb o 0 then LThis else LNone) (fun _ => true) true [] = Some refute_st.
+Proof. reflexivity. Qed.
+
+Lemma inv_refuted :
+  exists s ops n o,
+    Inv s /\ Linked s /\ clink s = true /\ ops_keep s ops /\
+    (forall p, In p ops -> match p with Remove _ => True | SetNum _ _ => True | _ => False end) /\
+    snd (get (run s ops) n) = Some o /\ ~ In o (objs (run s ops)).
+Proof.
+  exists refute_st, refute_ops, 5, 0%nat.
+  split; [exact (init_inv _ _ _ _ _ _ _ _ refute_st_init) |].
+  split.
+  { eapply init_linked; [exact refute_st_init |]. intros _ o [<- | []]. reflexivity. }
+  split; [reflexivity |].
+  split; [cbn; auto |].
+  split.
+  { intros p [<- | [<- | [<- | []]]]; exact Logic.I. }
+  split.
+  - vm_compute. reflexivity.
+  - vm_compute. intros [].
+Qed.
+
+(* the sequence leaves the premise op_ok exactly at the remove *)
+Lemma refuted_outside_premise :
+  ops_ok refute_st [SetNum 0%nat 6] /\
+  ~ op_ok (run refute_st [SetNum 0%nat 6]) (Remove 1%nat) /\
+  ~ ops_ok refute_st refute_ops.
+Proof.
+  assert (Hrem : ~ op_ok (run refute_st [SetNum 0%nat 6]) (Remove 1%nat)).
+  { intro H. apply op_okb_spec in H. vm_compute in H. discriminate. }
+  split; [| split].
+  - cbn. split; auto.
+  - exact Hrem.
+  - intros [_ [H _]]. apply Hrem. exact H.
+Qed.
+
+(* the hypotheses of the partial and of the full-strength theorems are satisfiable *)
+Lemma inv_partial_satisfiable :
+  exists s ops, Inv s /\ ops_ok s ops /\ List.length ops = 3%nat /\ objs (run s ops) <> objs s.
+Proof.
+  exists refute_st, [SetNum 0%nat 6; Remove 0%nat; SetNum 0%nat 5].
+  split; [exact (init_inv _ _ _ _ _ _ _ _ refute_st_init) |].
+  split.
+  - cbn [ops_ok]. split; [cbn; auto |]. split; [left; vm_compute; reflexivity |].
+    split; [right; left; vm_compute; intros [] | exact Logic.I].
+  - split; [reflexivity | vm_compute; discriminate].
+Qed.
+
+Definition ident_st : st :=
+  mkst [0%nat; 1%nat] [(2, 1%nat); (1, 0%nat)] (fun o => Z.of_nat o + 1) (fun o => o)
+       (fun _ => LThis) (fun _ => true) true [2%nat].
+
+Lemma inv_identity_satisfiable :
+  exists s ops, Inv s /\ Linked s /\ clink s = true /\ key_inj s /\ ops_keep s ops /\
+                ops_same s ops /\ objs s <> [] /\ List.length ops = 4%nat.
+Proof.
+  exists ident_st, [SetNum 0%nat 2; Remove 1%nat; FAppend 3%nat; SetNum 0%nat 2].
+  split.
+  { apply (init_inv [0%nat; 1%nat] (fun o => Z.of_nat o + 1) (fun o => o) (fun _ => LThis)
+                    (fun _ => true) true [2%nat]). reflexivity. }
+  split; [intros _ o _; reflexivity |].
+  split; [reflexivity |].
+  split; [intros a b H; exact H |].
+  split.
+  { cbn [ops_keep op_keeps]. split; [exact Logic.I |]. split; [exact Logic.I |].
+    split; [vm_compute; intros [H | []]; discriminate |]. split; exact Logic.I. }
+  split.
+  { cbn [ops_same op_same]. split; [exact Logic.I |].
+    split; [left; vm_compute; reflexivity |]. repeat split. }
+  split; [discriminate | reflexivity].
 Qed.
 
 Lemma inv_nonvacuous : exists s, Inv s /\ objs s <> [] /\ cache s <> [].
 Proof.
   eexists. split.
-  - apply (init_inv [0%nat; 1%nat] (fun o => Z.of_nat o + 1) (fun _ => true) (fun _ => true) true).
-    + reflexivity.
-    + intros; reflexivity.
+  - apply (init_inv [0%nat; 1%nat] (fun o => Z.of_nat o + 1) (fun o => o) (fun _ => LThis)
+                    (fun _ => true) true []).
+    reflexivity.
   - cbn. split; discriminate.
 Qed.
